@@ -3,6 +3,7 @@
 # worktrees are gone; suite and demonstration results were confirmed when each change was first processed), then
 # refresh the evidence of every claimed property on /repo.   usage: tools/final_sweep.sh [--skip-seeded]
 cd "$(dirname "$0")/.."
+mkdir -p build
 if [ "$1" != "--skip-seeded" ]; then
   for d in seeded/*/; do
     id=$(basename $d)
